@@ -8,8 +8,10 @@ ASSUME = ["the general engine's decision is observed on the parenthesised equiva
 VAL = {"f64": {"$f": 2.5}, "f64int": {"$f": 3.0}, "f32": {"$f32": 2.5}, "int": {"$i": 3}, "i64": {"$i64": 3}, "i32": {"$i32": 3}, "u": {"$u": 3}, "u64": {"$u64": 3}, "u32": {"$u32": 3},
        "i8": {"$i8": 3}, "i16": {"$i16": 3}, "u8": {"$u8": 3}, "u16": {"$u16": 3}, "nan": {"$nan": 1}, "pinf": {"$inf": 1}, "ninf": {"$inf": -1},
        "p53": {"$big": "9007199254740992", "t": "int64"}, "p53p1": {"$big": "9007199254740993", "t": "int64"}, "maxi64": {"$big": "9223372036854775807", "t": "int64"},
-       "maxu64": {"$big": "18446744073709551615", "t": "uint64"}, "numstr": "3", "text": "ab", "boolt": True, "null": None}
+       "maxu64": {"$big": "18446744073709551615", "t": "uint64"}, "numstr": "3", "text": "ab", "boolt": True, "null": None,
+       "f32x": {"$f32": 2.3}, "f32y": {"$f32": 0.1}, "f64x": {"$f": 2.3}}      # float32 values that are no binary fractions: widened as float64(x), not through their decimal spelling
 LIT = {"int": "3", "neg": "-3", "frac": "2.5", "big": "9007199254740992", "str": "'ab'", "strnum": "'3'"}
+LITX = dict(LIT, fracx="2.3", fracy="0.1")      # chains only (the single-comparison space is the TLA+ model's)
 
 
 def row(kinds):
@@ -21,7 +23,8 @@ def row(kinds):
 
 
 def term(c, op, lit):
-    return "%s %s %s" % (c, op, LIT[lit])
+    if c == "1": return "1 %s 1" % op            # a literal-only filler member (1 = 1)
+    return "%s %s %s" % (c, op, LITX[lit])
 
 
 MIRROR = {">": "<", ">=": "<=", "<": ">", "<=": ">=", "==": "==", "!=": "!="}
@@ -29,7 +32,8 @@ MIRROR = {">": "<", ">=": "<=", "<": ">", "<=": ">=", "==": "==", "!=": "!="}
 
 def rterm(c, op, lit):
     """the same comparison written literal-first"""
-    return "%s %s %s" % (LIT[lit], MIRROR[op], c)
+    if c == "1": return "1 %s 1" % op
+    return "%s %s %s" % (LITX[lit], MIRROR[op], c)
 
 
 def sqlop(op):
@@ -66,7 +70,10 @@ def run(tier):
     for _ in range(2500 if quick else 150000):
         n = rng.choice([2, 2, 3])
         cols = ["x", "y", "z"][:n]
-        terms = [(c, rng.choice(ops), rng.choice(list(LIT))) for c in cols]
+        terms = [(c, rng.choice(ops), rng.choice(list(LITX))) for c in cols]
+        if rng.random() < 0.15:      # the filler "1 = 1" (or a false one) among the members of a flat chain
+            terms.insert(rng.randrange(len(terms) + 1), ("1", rng.choice(["==", "==", "!="]), "int"))
+            n = len(terms)
         style = rng.choice(["and", "or", "mixed"])
         conns = {"and": ["&&"] * (n - 1), "or": ["||"] * (n - 1), "mixed": [rng.choice(["&&", "||"]) for _ in range(n - 1)]}[style]
         flat = term(*terms[0])
@@ -78,7 +85,7 @@ def run(tier):
             gen += " %s (%s)" % (cn, term(*t))
         rows = []
         for _r in range(4):
-            ks = {c: (rng.choice(["int", "f64", "f64int", "text", "numstr"]) if rng.random() < 0.6 else rng.choice(kinds)) for c in cols}
+            ks = {c: (rng.choice(["int", "f64", "f64int", "text", "numstr", "f32x", "f32y", "f64x"]) if rng.random() < 0.6 else rng.choice(kinds)) for c in cols}
             rows.append(row(ks))
         sqlw = flat.replace("&&", "AND").replace("||", "OR").replace("==", "=")
         alt = rterm(*terms[0])
